@@ -100,7 +100,7 @@ func (s *intraProxyStreamSender) Run(
 
 	// register this sender so sendMessages can use it
 	s.shardManager.GetIntraProxyManager().RegisterSender(s.peerNodeName, s.targetShardID, s.sourceShardID, s)
-	defer s.shardManager.GetIntraProxyManager().UnregisterSender(s.peerNodeName, s.targetShardID, s.sourceShardID)
+	defer s.shardManager.GetIntraProxyManager().UnregisterSender(s.peerNodeName, s.targetShardID, s.sourceShardID, s)
 
 	// Send pending watermarks to late-registering shards
 	// When a sender is registered, check if there's an active receiver for the source shard
@@ -490,13 +490,17 @@ func (m *intraProxyManager) UnregisterSender(
 	peerNodeName string,
 	targetShard history.ClusterShardID,
 	sourceShard history.ClusterShardID,
+	sender *intraProxyStreamSender,
 ) {
 	key := peerStreamKey{targetShard: targetShard, sourceShard: sourceShard}
 	m.loggers.Get(logging.ShardRouting).Info("UnregisterSender", tag.NewStringTag("peerNodeName", peerNodeName),
 		tag.NewStringTag("key", fmt.Sprintf("%v", key)))
 	m.streamsMu.Lock()
 	if ps := m.peers[peerNodeName]; ps != nil && ps.senders != nil {
-		delete(ps.senders, key)
+		// Only remove our own registration: a newer sender may have replaced it
+		if current, exists := ps.senders[key]; exists && current == sender {
+			delete(ps.senders, key)
+		}
 	}
 	m.streamsMu.Unlock()
 }
@@ -662,10 +666,12 @@ func (m *intraProxyManager) ensureStream(
 		if err := recv.Run(ctx, m.shardManager, ps.conn); err != nil {
 			m.loggers.Get(logging.ShardRouting).Error("intraProxyStreamReceiver.Run error", tag.Error(err))
 		}
-		// remove the receiver from the peer state
+		// remove the receiver from the peer state, unless a newer receiver has taken its place
 		m.streamsMu.Lock()
-		delete(ps.receivers, key)
-		delete(ps.recvShutdown, key)
+		if current, exists := ps.receivers[key]; exists && current == recv {
+			delete(ps.receivers, key)
+			delete(ps.recvShutdown, key)
+		}
 		m.streamsMu.Unlock()
 	}()
 	return nil
